@@ -176,10 +176,18 @@ pub fn binop(op: BinOp, a: &V, b: &V) -> R<V> {
                     check(t, m)
                 }
                 BinOp::And | BinOp::Or => {
-                    let l = to_int16(*x)?;
-                    let r = to_int16(*y)?;
-                    let v = if op == BinOp::And { l & r } else { l | r };
-                    Ok(V::N(Ty::Int, v as f64))
+                    // 16-bit when both operands are in the INTEGER range, else 32-bit, else Overflow
+                    if fits(Ty::Int, x.round()) && fits(Ty::Int, y.round()) {
+                        let l = to_int16(*x)?;
+                        let r = to_int16(*y)?;
+                        let v = if op == BinOp::And { l & r } else { l | r };
+                        Ok(V::N(Ty::Int, v as f64))
+                    } else {
+                        let l = conv_num(*x, Ty::Long)? as i32;
+                        let r = conv_num(*y, Ty::Long)? as i32;
+                        let v = if op == BinOp::And { l & r } else { l | r };
+                        Ok(V::N(Ty::Long, v as f64))
+                    }
                 }
                 _ => {
                     let o = x.partial_cmp(y).unwrap_or(std::cmp::Ordering::Equal);
@@ -213,7 +221,13 @@ pub fn neg(v: &V) -> R<V> {
 
 pub fn not(v: &V) -> R<V> {
     match v {
-        V::N(_, x) => Ok(V::N(Ty::Int, (!to_int16(*x)?) as f64)),
+        V::N(_, x) => {
+            if fits(Ty::Int, x.round()) {
+                Ok(V::N(Ty::Int, (!to_int16(*x)?) as f64))
+            } else {
+                Ok(V::N(Ty::Long, (!(conv_num(*x, Ty::Long)? as i32)) as f64))
+            }
+        }
         _ => Err(TYPE_MISMATCH),
     }
 }
